@@ -81,6 +81,8 @@ func (g *mgen) nChildren() int {
 		return 1
 	case k == 1:
 		return 4 + g.r.Intn(3)
+	case k == 2 && g.r.Intn(4) == 0:
+		return 13 + g.r.Intn(5) // beyond the small-slice thresholds of the sort routines (12)
 	}
 	return 2 + g.r.Intn(2)
 }
@@ -244,6 +246,10 @@ func (g *mgen) children(n, depth int, rels []string, hasThis *bool, self string)
 		ch = append(ch, c)
 	}
 	for len(ch) < n {
+		if n > 6 {
+			ch = append(ch, Computed(rels[len(ch)%len(rels)])) // repeated computed operands are legitimate
+			continue
+		}
 		ch = append(ch, TTU(rels[len(ch)%len(rels)], g.tuplesets[len(ch)%len(g.tuplesets)]))
 	}
 	return ch
